@@ -134,4 +134,14 @@ TEXT["C10"] = {
             "MEASURED (runtime.MemStats around each call, bound 48 MiB + 24 x input), not proved.",
     "note": COMMON_NOTE + "Go runtime, allocator, stack depth and GC are not modelled; the memory bound is sampled. Known finding K1 "
             "(bundle.Read copies a shared response once per index entry) is listed in known-findings.json."}
+TEXT["C20"] = {
+    "text": "PARTIAL. Proved on the model: the file-path -> URL mapping of gen-bundle (percent-escaping as net/url does it) is "
+            "injective and never yields '#', '?', unpaired '%', spaces or non-ASCII, so every URL it produces is accepted by the "
+            "bundle reader; the expected exchange set of a directory tree (index.html at the slash URL, its own URL a 301) is "
+            "a Gallina function compared with what the gen-bundle binary writes. The tool compositions (gen-certurl->dump-certurl, "
+            "gen-signedexchange->dump-signedexchange -verify with SEC1/PKCS#8/encrypted keys and -o -, gen-bundle->sign-bundle "
+            "both sub-commands->dump-bundle, dump-id) are exercised through the seven binaries built from the working tree; "
+            "flag/PEM/PKCS#8/HAR parsing and http.ServeFile are standard-library glue covered only by that run.",
+    "note": COMMON_NOTE + "http.ServeFile, flag, encoding/pem, x509, pkcs8 and the file system are not modelled; file names that are not "
+            "valid UTF-8 or contain a '..' element (refused by http.ServeFile itself) and base URLs outside the decided class are skipped and counted."}
 NOT_YET = {}
